@@ -280,6 +280,10 @@ def _job(chunk):
 
 
 def replay_case(case):
+    return [v for v in replay_all(case) if v["oracle"].startswith("C15.")]
+
+
+def replay_all(case):
     out, classes = [], set()
     extra = None
     if case.get("extra"):
